@@ -253,7 +253,7 @@ def add_reconnection(u):
             'final(self).startup_grace_deadline_ms == old(self).startup_grace_deadline_ms']),
         u.fn(R, 'mark_success', impl='ReconnectionState', sub='reconn', ensures=[
             C('C08.reconn.mark_success.backoff_restarts', 'final(self).reconnect_failure_count == 0'),
-            'final(self).last_reconnect_attempt_ms == old(self).last_reconnect_attempt_ms',
+            C('C08.reconn.mark_success.keeps_the_retry_clock', 'final(self).last_reconnect_attempt_ms == old(self).last_reconnect_attempt_ms'),
             'final(self).connection_established_ms == old(self).connection_established_ms',
             'final(self).startup_grace_deadline_ms == old(self).startup_grace_deadline_ms']),
         u.fn(R, 'reset_startup_grace', impl='ReconnectionState', sub='reconn', requires=['now < 0x4000_0000_0000_0000'],
@@ -269,14 +269,22 @@ def add_rtt(u):
         u.fn(K + 'kalman.rs', 'value', impl='KalmanFilter', sub='reconn', ret='r', ensures=['r == self.x']),
         u.fn(K + 'kalman.rs', 'velocity', impl='KalmanFilter', sub='reconn', ret='r', ensures=['r == self.v']),
         u.fn(K + 'kalman.rs', 'is_initialized', impl='KalmanFilter', sub='reconn', ret='r', ensures=['r == self.initialized']),
+        u.fn(K + 'kalman.rs', 'reset', impl='KalmanFilter', sub='reconn', ensures=['!final(self).initialized', 'final(self).config == old(self).config']),
     ]))
     u.add(impl_block('BitrateTracker', [
         u.fn(K + 'connection/bitrate.rs', 'new', impl='BitrateTracker', sub='reconn'),
-        u.fn(K + 'connection/bitrate.rs', 'reset', impl='BitrateTracker', sub='reconn'),
+        u.fn(K + 'connection/bitrate.rs', 'reset', impl='BitrateTracker', sub='reconn', ensures=[
+            C('C08+C17.reconn.bitrate.reset.restarts_the_throughput_measurement_from_zero',
+              'final(self).bytes_sent_total == 0 && final(self).bytes_sent_window == 0 && final(self).last_rate_update_ms == now_ms')]),
         u.fn(K + 'connection/bitrate.rs', 'update_on_send', impl='BitrateTracker', sub='reconn'),
     ]))
     u.add(S.RTT_STUBS)
+    u.add(impl_block('Ewma', [u.fn(K + 'ewma.rs', 'reset', impl='Ewma', sub='reconn', ensures=['!final(self).initialized'])]))
     u.add(impl_block('RttTracker', [
+        u.fn(T, 'reset', impl='RttTracker', sub='reconn',
+             post_rewrite=[(re.compile(r'self\.(rtt_min_fast_window|rtt_min_slow_window|rtt_sample_filter)\.clear\(\);'), r'vecdeque_f64_clear(&mut self.\1);', 3)],
+             ensures=[C('C08+C14.reconn.rtt.reset.cancels_the_outstanding_probe_and_forgets_the_estimate',
+                        '!final(self).waiting_for_keepalive_response && final(self).last_keepalive_sent_ms == 0 && final(self).last_rtt_measurement_ms == 0 && !final(self).kalman_rtt.initialized')]),
         u.fn(T, 'record_keepalive_sent', impl='RttTracker', sub='reconn', ensures=[
             C('C14.reconn.rtt.record_keepalive_sent_arms_the_probe', 'final(self).last_keepalive_sent_ms == now_ms && final(self).waiting_for_keepalive_response'),
             'final(self).last_rtt_measurement_ms == old(self).last_rtt_measurement_ms', 'final(self).kalman_rtt == old(self).kalman_rtt']),
@@ -315,7 +323,7 @@ def add_connection(u):
                'r.batch_sender.queue.len() == 0',
            ]))
     F(u.fn(CONN, 'get_score', impl='SrtlaConnection', sub='select', props=('C03',), ret='r', requires=['0 <= self.window', 'self.batch_sender.wf()'], ensures=[
-        C('C10.select.get_score.window_over_inflight_plus_queued_plus_1', 'r == self.spec_score()')]))
+        C('C10+C11.select.get_score.window_over_inflight_plus_queued_plus_1', 'r == self.spec_score()')]))
     F(u.fn(CONN, 'queue_data_packet', impl='SrtlaConnection', sub='batch', ret='r',
            requires=['old(self).batch_sender.wf()', 'old(self).batch_sender.queue.len() < 0x7fff_fff0'],
            ensures=[
@@ -451,6 +459,8 @@ def add_connection(u):
                'final(self).connected == old(self).connected', 'final(self).conn_id == old(self).conn_id',
                'final(self).last_received == old(self).last_received', 'final(self).last_ack_or_rtt_sample_ms == old(self).last_ack_or_rtt_sample_ms',
                'final(self).reconnection == old(self).reconnection', 'final(self).rtt == old(self).rtt',
+               C('C14.acct.clear_pre_registration_state.keepalive_cadence_clock_and_send_stamps_untouched',
+                 'final(self).last_keepalive_sent == old(self).last_keepalive_sent && final(self).last_sent == old(self).last_sent'),
            ]))
     F(u.fn(CONN, 'reset_core_state', impl='SrtlaConnection', sub='acct', ensures=S.RESET_CORE_ENSURES))
     F(u.fn(CONN, 'mark_for_recovery', impl='SrtlaConnection', sub='acct', ensures=S.RESET_CORE_ENSURES_PUBLIC('mark_for_recovery') + [
@@ -545,6 +555,11 @@ def add_selection(u):
     ebody = [u.consts(E, names=['IN_FLIGHT_CAP_BDP_MULT', 'SWITCH_THRESHOLD', 'CC_SOFT_CAP_FLOOR', 'GATED_LINK_PENALTY']),
              u.item(K + 'selection/link_cc.rs', 'const', 'ASSUMED_SRT_PAYLOAD_BYTES'),
              S.ENH_STUBS,
+             u.fn(E, 'in_flight_cap_packets', sub='select', ret='r', qual='enhanced::in_flight_cap_packets',
+                  post_rewrite=[('(cc_target_bps as f64)', 'cast_u64_f64(cc_target_bps)', 1), ('ASSUMED_SRT_PAYLOAD_BYTES as f64', 'cast_u64_f64(ASSUMED_SRT_PAYLOAD_BYTES)', 1),
+                                ('Some(cap.min(i32::MAX as f64) as i32)', 'Some(cast_f64_i32(cap.min(cast_i32_f64(i32::MAX))))', 1)],
+                  ensures=[C('C11.select.enhanced.in_flight_cap_is_the_documented_cap_and_1ms_without_an_rtt_baseline', 'r == spec_cap_packets(cc_target_bps, rtt_min_ms)')],
+                  splices=[('@BEGIN', '    proof { reveal(spec_cap_packets); }', 'after')]),
              u.fn(E, 'in_flight_cap_exceeded', sub='select', ret='r', qual='enhanced::in_flight_cap_exceeded',
                   pre_rewrite=[(re.compile(r'in_flight_cap_packets\(c\.cc_target_bps, c\.get_rtt_min_ms\(\)\)\s*\.map\(\|cap\| c\.in_flight_packets > cap\)\s*\.unwrap_or\(false\)'),
                                 '(match in_flight_cap_packets(c.cc_target_bps, c.get_rtt_min_ms()) { Some(cap) => c.in_flight_packets > cap, None => false })', 1)],
@@ -571,6 +586,7 @@ def add_selection(u):
                loops={k: dict(inv=inv, dec='conns.len() - c_nx') for k, inv in S.GATE_LOOPS.items()},
                splices=S.GATE_SPLICES))
     u.add(u.fn(K + 'selection/mod.rs', 'select_connection_idx', sub='select', ret='r', props=('C03',),
+               post_rewrite=[(S.IDX_ANCHOR_REWRITE, None, 1)],
                requires=S.IDX_REQUIRES, ensures=S.IDX_ENSURES, splices=S.IDX_SPLICES))
     u.add(u.fn(K + 'priority.rs', 'select_best_quality_idx', sub='select', ret='r',
                post_rewrite=[('let mut best_idx = None;', 'let mut best_idx: Option<usize> = None;', 1)],
